@@ -934,6 +934,8 @@ func c28Search(c *Ctx, base string, corpus []string) {
 	c.Extra["search_seconds"] = int(time.Since(t0).Seconds())
 	os.RemoveAll(filepath.Join(base, "c28search"))
 
+	var slow []string
+	defer func() { c.Extra["slow_examples"] = slow }()
 	for i, it := range items {
 		res := results[i]
 		tags := append([]string{}, it.tags...)
@@ -951,6 +953,9 @@ func c28Search(c *Ctx, base string, corpus []string) {
 			default:
 				c.Fail(it.witness, what+" — input: "+c28Describe(it.req))
 			}
+		}
+		if (res.kind == "hang" || res.kind == "timeout") && len(slow) < 8 {
+			slow = append(slow, res.kind+": "+c28Describe(it.req))
 		}
 		if res.kind == "hang" && res.msg != "" {
 			c.Fail(it.witness, "worker problem: "+res.msg)
